@@ -130,6 +130,11 @@ fn scenario_events(events: &[LEv], local_only: bool, reset_prelude: Option<&toki
     let aid = a.id.clone();
     let mut last_ack: Option<Vec<u8>> = None;
     let mut wi = 0usize;
+    // half of the scenarios replicate after every write; the others only after every 2nd / 3rd one (and after the last):
+    // the replica then learns several writes at once — a key set and deleted in between arrives as a bare tombstone on a
+    // key it never saw, a key deleted and set again arrives as a newer value without the tombstone in between
+    let n_writes = events.iter().filter(|e| matches!(e, LEv::Write(..))).count();
+    let batch = [1usize, 1, 2, 3][(hash_of(&(ctx, events.len(), n_writes)) % 4) as usize];
     for ev in events {
         let (op, key, value) = match ev {
             LEv::Sub(p) => {
@@ -192,6 +197,10 @@ fn scenario_events(events: &[LEv], local_only: bool, reset_prelude: Option<&toki
             compare(&sa, want, &format!("{what} (local)"), out);
         }
         if local_only {
+            continue;
+        }
+        if wi % batch != 0 && wi != n_writes {
+            out.c.inc("writes_batched_before_replication");
             continue;
         }
         // replicate to b: expected = entries of a whose version changed on b and are not deleted
